@@ -139,7 +139,8 @@ def build_tau2(c):
                         1.5, 0.75, pred, name="other")
     # hyperparameters and coefficients of the model OBJECT differ from those of the model STATE handed to
     # the kernel (tau2_position): the kernel has to read the state
-    b.add_np_smooth(X, np.asarray(c["K"], dtype=dt), c["a"] + 1.0, 2.0 * c["b"], pred, name="s")
+    Kmat = np.asarray(c["K"], dtype=c["kint"]) if c.get("kint") else np.asarray(c["K"], dtype=dt)
+    b.add_np_smooth(X, Kmat, c["a"] + 1.0, 2.0 * c["b"], pred, name="s")
     return b.build_model()
 
 
@@ -231,7 +232,7 @@ def build_hand(c):
     smooths = []
     for gi, gr in enumerate(c["groups"]):
         nm = node_names(c, gi)
-        K = np.asarray(gr["K"], dtype=dt)
+        K = np.asarray(gr["K"], dtype=gr["kint"]) if gr.get("kint") else np.asarray(gr["K"], dtype=dt)
         # the model OBJECT holds other hyperparameters / coefficients than the STATE handed to the kernels
         a_node = lsl.Value(np.asarray(gr["a"] + 1.0, dtype=dt), _name=nm["a"])
         b_node = lsl.Value(np.asarray(2.0 * gr["b"], dtype=dt), _name=nm["b"])
@@ -411,6 +412,20 @@ def build_disc(c):
         ydat = lsl.Var(np.asarray(c["ys"], dtype=np.float64), name="ydat")
         items.append(lsl.Var(lsl.Calc(lambda y, z: y - (c0 + c1 * z), ydat, z),
                              lsl.Dist(tfd.Normal, loc=0.0, scale=sig), name="y"))
+    elif c["ys"] and c.get("shared") and len(c["ys"]) >= 2:
+        # ONE computed mean shared by two observed variables (the same likelihood as y ~ Normal(mu, sig), split):
+        # a diamond between z and the log-probability; both orders of adding / of depth
+        mu = lsl.Var(lsl.Calc(lambda z: c0 + c1 * z, z), name="mu")
+        sig = lsl.Var(float(s) * 2.0, name="sig")     # run_disc hands a state with sig = s
+        h = len(c["ys"]) // 2
+        mu_a, mu_b = mu, mu
+        if c["shared"] == "deep_a":
+            mu_a = lsl.Var(lsl.Calc(lambda m: m + 0.0, mu), name="mu_a")
+        if c["shared"] == "deep_b":
+            mu_b = lsl.Var(lsl.Calc(lambda m: m + 0.0, mu), name="mu_b")
+        y1 = lsl.obs(np.asarray(c["ys"][:h], dtype=np.float64), lsl.Dist(tfd.Normal, loc=mu_a, scale=sig), name="y1")
+        y2 = lsl.obs(np.asarray(c["ys"][h:], dtype=np.float64), lsl.Dist(tfd.Normal, loc=mu_b, scale=sig), name="y2")
+        items += [y2, y1] if c["shared"] == "ba" else [y1, y2]
     elif c["ys"]:
         mu = lsl.Var(lsl.Calc(lambda z: c0 + c1 * z, z), name="mu")
         sig = lsl.Var(float(s) * 2.0, name="sig")     # run_disc hands a state with sig = s
@@ -420,7 +435,12 @@ def build_disc(c):
         items.append(lsl.obs(np.asarray(c["ns"], dtype=np.float64), lsl.Dist(tfd.Poisson, rate=lam), name="n"))
     if c.get("extra"):
         items.append(lsl.param(0.75, lsl.Dist(tfd.Normal, loc=0.0, scale=2.0), name="w"))
-    return lsl.GraphBuilder(to_float32=False).add(*items).build_model()
+    model = lsl.GraphBuilder(to_float32=False).add(*items).build_model()
+    if c.get("user_auto") is False:
+        # the USER's model has auto-update switched off when the kernel is created (state fully up to date)
+        model.update()
+        model.auto_update = False
+    return model
 
 
 def disc_outcomes(c):
@@ -502,7 +522,12 @@ def run_disc(c, freq=False):
             pos_r = {}
             if c["ys"]:
                 pos_r["sig"] = jnp.asarray(float(s_r))
-                pos_r["ydat" if c.get("resid") else "y"] = jnp.asarray(np.asarray(ys_r, dtype=np.float64))
+                if c.get("shared") and len(c["ys"]) >= 2 and not c.get("resid"):
+                    h = len(ys_r) // 2
+                    pos_r["y1"] = jnp.asarray(np.asarray(ys_r[:h], dtype=np.float64))
+                    pos_r["y2"] = jnp.asarray(np.asarray(ys_r[h:], dtype=np.float64))
+                else:
+                    pos_r["ydat" if c.get("resid") else "y"] = jnp.asarray(np.asarray(ys_r, dtype=np.float64))
             if c["ns"]:
                 pos_r["n"] = jnp.asarray(np.asarray(ns_r, dtype=np.float64))
             st_r = iface.update_state(pos_r, state) if pos_r else state
@@ -724,6 +749,11 @@ def gen_tau2(rnd, idx, kt=None, bt=None, f32=None, tinyb=False):
          # (numpy's matrix_rank tolerance is relative to the dtype: mixed-scale penalties only in x64 builds)
          "f32": (bool(idx % 5 == 4) if f32 is None else f32) and kt != "tinydiag", "extra": idx % 3 == 1,
          "ts": list(PROFILE_TS)}
+    # integer-dtype penalty (what np.diff(np.eye(n, dtype=int), ...) gives): every third integral penalty
+    if all(float(x).is_integer() for row in K for x in row) and idx % 3 == 2 and not tinyb:
+        c["kint"] = ["int64", "int32"][(idx // 3) % 2]
+        if bt == "random" and all(float(x).is_integer() for x in beta):
+            c["beta"][0] += 0.25
     if tinyb:
         c["btype"] = bt + ".tinyb"
         c["f32"] = bool(idx % 2) if f32 is None else f32
@@ -772,6 +802,11 @@ def gen_hand(rnd, idx, st=None):
                        "beta": [dy(rnd, -3, 3, 4) for _ in range(p)], "tau2_0": rnd.choice([0.5, 1.0, 2.0, 4.0]),
                        "g": rnd.choice([0.25, 0.5, 2.0, 3.0, 0.75]),
                        "X": [[dy(rnd, -1, 1, 4) for _ in range(p)] for _ in range(n)]})
+    for gi, gr in enumerate(groups):
+        if all(float(x).is_integer() for row in gr["K"] for x in row) and (idx + gi) % 2 == 0:
+            gr["kint"] = ["int64", "int32"][(idx // 2) % 2]
+            if all(float(x).is_integer() for x in gr["beta"]):
+                gr["beta"][0] += 0.25
     c = {"kind": "hand", "stratum": st, "groups": groups, "seed": rnd.randint(0, 2 ** 31 - 1),
          "y": [dy(rnd, -2, 2, 4) for _ in range(n)], "f32": idx % 4 == 3, "ts": list(PROFILE_TS), "decoys": {}}
     if st in ("decoys", "short_first_decoys"):
@@ -783,7 +818,7 @@ def gen_hand(rnd, idx, st=None):
 
 
 DISC_STRATA = ["finite_both", "bern_normal", "finite_prior_only", "bern_out_rev", "finite_poisson", "finite_sub",
-               "bern_both", "finite_single", "finite_zero_prob", "finite_resid", "bern_resid"]
+               "bern_both", "finite_single", "finite_zero_prob", "finite_resid", "bern_resid", "finite_shared", "bern_shared"]
 
 
 def gen_probs(rnd, k):
@@ -821,11 +856,15 @@ def gen_disc(rnd, idx, st=None):
         if st == "bern_out_rev":
             c["outcomes_arg"] = [1, 0]
     if st in ("finite_both", "bern_normal", "finite_sub", "bern_both", "bern_out_rev", "finite_single", "finite_zero_prob",
-              "finite_resid", "bern_resid"):
-        c["ys"] = [dy(rnd, -2, 2, 4) for _ in range(rnd.randint(1, 3))]
+              "finite_resid", "bern_resid", "finite_shared", "bern_shared"):
+        c["ys"] = [dy(rnd, -2, 2, 4) for _ in range(rnd.randint(2, 4) if st.endswith("_shared") else rnd.randint(1, 3))]
     c["outer_jit"] = idx % 4 == 1
+    # the user's model has auto_update off at kernel creation for every third model
+    c["user_auto"] = idx % 3 != 1
+    c["shared"] = ["ab", "ba", "deep_a", "deep_b"][(idx // len(DISC_STRATA)) % 4] if st.endswith("_shared") else (
+        ["ab", "deep_b"][idx % 2] if (st in ("finite_both", "bern_normal") and idx % 3 == 0) else None)
     c["resid"] = st.endswith("_resid") or (st in ("finite_both", "bern_both") and idx % 4 == 2)
-    if st in ("finite_both", "finite_poisson", "bern_both", "finite_sub", "finite_resid"):
+    if st in ("finite_both", "finite_poisson", "bern_both", "finite_sub", "finite_resid", "bern_shared"):
         c["ns"] = [float(rnd.randint(0, 5)) for _ in range(rnd.randint(1, 3))]
     return c
 
@@ -846,10 +885,12 @@ def stratum(c):
         r = exact_rank(c["K"])
         p = len(c["K"])
         return (f"tau2.K={c['ktype']}.{'fullrank' if r == p else 'rank0' if r == 0 else 'deficient'}."
-                f"beta={c['btype']}.{'f32' if c['f32'] else 'x64'}")
+                f"beta={c['btype']}.{'f32' if c['f32'] else 'x64'}" + (".K" + c["kint"] if c.get("kint") else ""))
     if c["kind"] == "hand":
-        return f"hand.{c['stratum']}.{len(c['groups'])}groups.{'f32' if c['f32'] else 'x64'}"
-    return f"disc.{c['stratum']}"
+        return (f"hand.{c['stratum']}.{len(c['groups'])}groups.{'f32' if c['f32'] else 'x64'}"
+                + (".Kint" if any(g.get("kint") for g in c["groups"]) else ""))
+    return (f"disc.{c['stratum']}" + (".shared_" + c["shared"] if c.get("shared") and len(c["ys"]) >= 2 and not c.get("resid") else "")
+            + (".user_auto_off" if c.get("user_auto") is False else ""))
 
 
 def strip(c):
